@@ -39,14 +39,6 @@ Proof.
 Qed.
 Lemma kc_spk_size_min t v : kc_spk_size t = Some v -> 32 <= v.
 Proof. unfold kc_spk_size. apply assoc_min. reflexivity. Qed.
-Lemma sig_length_min t n : sig_length t = Some n -> 40 <= n.
-Proof.
-  unfold sig_length. destruct ((t <? 0) || (t >? 65535))%bool; [discriminate|].
-  unfold sw_lookup, Gen.Tables.sw_signature_getSignatureLength, Gen.Tables.sw_signature_getSignatureLength_default.
-  repeat match goal with
-  | |- context [memZ ?l t] => destruct (memZ l t)
-  end; intros H; inversion H; lia.
-Qed.
 Lemma off_bytes_spec o : off_bytes o = spec_offline (o_expires o) (o_sigtype o) (o_key o) (o_sig o).
 Proof. unfold off_bytes, spec_offline, u32, u16. rewrite <- ?app_assoc. reflexivity. Qed.
 
